@@ -7,6 +7,7 @@ import (
 	"os"
 	"os/exec"
 	"path/filepath"
+	"runtime"
 	"strings"
 	"sync"
 	"time"
@@ -118,12 +119,49 @@ func firstLine(s string) string {
 	return s
 }
 
+// cpuSlots bounds the number of solver processes running at once to the number of CPUs: a race of n solvers takes n
+// slots, so that time budgets mean CPU time and not a share of an oversubscribed machine.
+var cpuSlots = func() *slots {
+	n := runtime.NumCPU()
+	if n < 2 {
+		n = 2
+	}
+	return &slots{free: n, cap: n, cond: sync.NewCond(&sync.Mutex{})}
+}()
+
+type slots struct {
+	free, cap int
+	cond      *sync.Cond
+}
+
+func (s *slots) acquire(n int) int {
+	if n > s.cap {
+		n = s.cap
+	}
+	s.cond.L.Lock()
+	for s.free < n {
+		s.cond.Wait()
+	}
+	s.free -= n
+	s.cond.L.Unlock()
+	return n
+}
+
+func (s *slots) release(n int) {
+	s.cond.L.Lock()
+	s.free += n
+	s.cond.L.Unlock()
+	s.cond.Broadcast()
+}
+
 // RunQuery races the solvers on one script.
 func RunQuery(script string, dir, name string, timeoutS int, solvers []SolverCfg) Verdict {
 	file := filepath.Join(dir, name+".smt2")
 	if err := os.WriteFile(file, []byte(script), 0o644); err != nil {
 		return Verdict{Status: "error", Output: err.Error()}
 	}
+	got := cpuSlots.acquire(len(solvers))
+	defer cpuSlots.release(got)
 	ctx, cancel := context.WithTimeout(context.Background(), time.Duration(timeoutS+2)*time.Second)
 	defer cancel()
 	type res struct {
